@@ -311,8 +311,103 @@ def check_fd_ownership(P, ctx):
         raise Broken("C08.R2: only %d descriptor-creating call sites" % nsrc)
 
 
+SHARED_EFFECTS = {"epoll_ctl": "changes the epoll set shared with the owner process", "unlink": "removes a file the owner still uses",
+                  "SSL_shutdown": "sends a TLS close_notify on the owner's connection", "shutdown": "shuts the owner's connection down",
+                  "send": "writes to the owner's connection", "sendmsg": "writes to the owner's connection", "write": "writes to a shared descriptor",
+                  "SSL_write": "writes to the owner's connection", "timerfd_settime": "re-arms a timer shared with the owner"}
+
+
+class OwnerGuard(CG.Guard):
+    def __init__(self, val):
+        self.val = val
+
+    def decide(self, fn, cond):
+        if self.val is None:
+            return None
+        l, op, r = C.cond_atom(fn, cond, True)
+        ln = fn.sn(l)
+        c = r[1] if isinstance(r, tuple) else C.const_of(fn, r)
+        if ln["k"] == "ref" and ln["dk"] == "param" and ln["name"] == "owner" and c is not None and op in ("==", "!="):
+            v = 1 if self.val else 0
+            return (v == c) if op == "==" else (v != c)
+        return None
+
+
 def check_owner_false(P, ctx, tables):
-    pass
+    """R6: context-sensitive reachability from the cleanup ops with the owner flag propagated"""
+    r6 = ctx.rule("C08.R6", "xcm_cleanup (owner == false) touches nothing shared with the owner process: no epoll_ctl, unlink, shutdown, write")
+    roots = []
+    for t in tables:
+        f = t.slots.get("cleanup")
+        if f is not None and f not in roots:
+            roots.append(f)
+    for name in ("xcm_cleanup", "xcm_tp_socket_cleanup"):
+        roots.append(P.fn(name))
+    for f in roots:
+        r6.instance(f.qname)
+    callbacks = CG.library_callbacks(P)
+    seen = {}
+    work = [(f, None, None) for f in roots]
+    for f in roots:
+        seen[(f, None)] = None
+    hits = []
+    while work:
+        f, val, _ = work.pop()
+        live = OwnerGuard(val).live_blocks(f)
+        for e, defs, exts in CG.call_edges(P, f, live, callbacks):
+            n = f.nodes[e]
+            for x in exts:
+                if x in SHARED_EFFECTS:
+                    hits.append((f, val, e, x))
+            for d in defs:
+                # the cleanup ops reach each other's close ops only through the sub-socket's *cleanup*
+                oi = [i for i, p in enumerate(d.params) if p["name"] == "owner"]
+                dv = None
+                if oi and oi[0] < len(n["args"]):
+                    a = f.sn(n["args"][oi[0]])
+                    cv = C.const_of(f, n["args"][oi[0]])
+                    if cv is not None:
+                        dv = bool(cv)
+                    elif a["k"] == "ref" and a["dk"] == "param" and a["name"] == "owner":
+                        dv = val
+                    else:
+                        dv = None
+                elif not oi:
+                    dv = None
+                if (d, dv) not in seen:
+                    seen[(d, dv)] = (f, val, e)
+                    work.append((d, dv, None))
+    def chain(f, val):
+        out = []
+        k = (f, val)
+        while k is not None and k in seen:
+            out.append("%s%s" % (k[0].name, "" if k[1] is None else "(owner=%s)" % k[1]))
+            p = seen[k]
+            k = (p[0], p[1]) if p else None
+        return list(reversed(out))
+    # functions that have no owner parameter but are only reached below an owner=false call are in cleanup context too
+    reported = set()
+    for f, val, e, x in hits:
+        ch = chain(f, val)
+        if val is True:
+            continue        # an owner=true context (cannot arise from a cleanup root unless a callee passes true explicitly)
+        key = "%s:%s" % (f.name, x)
+        if key in reported:
+            continue
+        reported.add(key)
+        r6.violation(key, "%s() is reachable from xcm_cleanup's path (%s): it %s" % (x, " -> ".join(ch[-5:]), SHARED_EFFECTS[x]), loc=f.loc(e), chain=ch)
+    if not hits:
+        r6.ok("%d (function, owner) contexts reachable from %d cleanup roots; none calls a shared-effect primitive" % (len(seen), len(roots)), "context-sensitive reachability")
+    else:
+        r6.ok("%d contexts explored" % len(seen), "context-sensitive reachability")
+    if len(seen) < 40:
+        raise Broken("C08.R6: only %d contexts reachable from the cleanup ops" % len(seen))
+    # positive control: from the close ops the same primitives must be reachable
+    croots = [t.slots["close"] for t in tables if t.slots.get("close")]
+    par, edges_of = CG.reach(P, croots, callbacks=callbacks)
+    found = {x for f, es in edges_of.items() for e, d, xs in es for x in xs if x in SHARED_EFFECTS}
+    if not {"epoll_ctl", "unlink"} <= found:
+        raise Broken("C08.R6 self-check: epoll_ctl/unlink not reachable from the close ops (%s)" % sorted(found))
 
 
 def check_resource_asserts(P, ctx):
